@@ -253,8 +253,8 @@ class CommitChecked(Txn):
             st.aut.setdefault('c:' + canon(e['recv']), None)
 
 
-def r3_commit(ctx, prog):
-    r = ctx.rule('C05.R3', 'CKR_OK is returned only after commitTransaction() was seen to succeed; store() reports failure through valid', floor=20, engine='E3')
+def r3_commit(ctx, prog, rule_id='C05.R3'):
+    r = ctx.rule(rule_id, 'CKR_OK is returned only after commitTransaction() was seen to succeed; store() reports failure through valid', floor=20, engine='E3')
     for f in sorted(prog.functions.values(), key=lambda f: (f['file'], f['line'])):
         if not (f['file'].endswith('SoftHSM.cpp') or f['file'].endswith('P11Objects.cpp')):
             continue
